@@ -8,6 +8,7 @@ import (
 	"os"
 	"path/filepath"
 	"sort"
+	"strings"
 
 	"github.com/MichaelMure/git-bug/entities/identity"
 	"github.com/MichaelMure/git-bug/entity"
@@ -40,6 +41,8 @@ type Event struct {
 	Returned []int   `json:"returned"`
 	Err      string  `json:"err"`
 	Final    bool    `json:"final"`
+	K        int     `json:"k"`        // NewIdent: versions written by the first commit
+	IdStable bool    `json:"idstable"` // the id handed out before the commit is the id afterwards and names the ref
 }
 
 type world struct {
@@ -52,6 +55,30 @@ type world struct {
 	ids    []entity.Id
 	events []*Event
 	n      int
+	sigNo  map[string]int
+}
+
+// sigOf: what tells the versions of an identity apart in this harness (see the NewIdent and Mutate steps).
+func sigOf(i *identity.Identity) string {
+	md := i.MutableMetadata()
+	keys := make([]string, 0, len(md))
+	for k := range md {
+		keys = append(keys, k+"="+md[k])
+	}
+	sort.Strings(keys)
+	return i.Name() + "|" + strings.Join(keys, ",")
+}
+
+// noteSig remembers which version number the identity's current last version got (after the projection numbered it).
+func (w *world) noteSig(repo repository.RepoData, i *identity.Identity) {
+	h, err := repo.ResolveRef("refs/identities/" + i.Id().String())
+	if err != nil {
+		return
+	}
+	if w.sigNo == nil {
+		w.sigNo = map[string]int{}
+	}
+	w.sigNo[sigOf(i)] = w.verNo[h]
 }
 
 func (w *world) chainOf(repo repository.RepoData, ref string) []int {
@@ -131,28 +158,53 @@ func (w *world) do(s Step) {
 	switch s.Act {
 	case "NewIdent":
 		w.n++
-		ev := &Event{Ev: "NewIdent"}
+		ev := &Event{Ev: "NewIdent", K: 1, IdStable: true}
 		i, err := identity.NewIdentity(repo, fmt.Sprintf("user %d", w.n), "u@example.org")
 		hx.Must(err)
+		// three ways to the first commit: plainly; with metadata set before anybody asked for the id; with metadata set after the id
+		// was handed out (the first version can no longer change: the metadata makes a second one, written by the same commit)
+		var handedOut entity.Id
+		switch w.n % 3 {
+		case 1:
+			handedOut = i.Id()
+			i.SetMetadata("origin", fmt.Sprintf("session %d", w.n))
+			ev.K = 2
+		case 2:
+			i.SetMetadata("origin", fmt.Sprintf("session %d", w.n))
+			handedOut = i.Id()
+		}
 		if err := i.Commit(repo); err != nil {
 			ev.Err = err.Error()
 		}
+		if handedOut != "" {
+			ok, _ := repo.RefExist("refs/identities/" + handedOut.String())
+			ev.IdStable = ok && i.Id() == handedOut
+		}
 		// number the slot and the version in creation order
 		w.emit(ev, s.R)
+		w.noteSig(repo, i)
 	case "Mutate":
 		w.n++
-		ev := &Event{Ev: "Mutate", I: s.I}
+		ev := &Event{Ev: "Mutate", I: s.I, IdStable: true}
 		i, err := identity.ReadLocal(repo, w.ids[s.I-1])
 		if err != nil {
 			ev.Err = "read: " + err.Error()
 			w.emit(ev, s.R)
 			return
 		}
-		hx.Must(i.Mutate(repo, func(m *identity.Mutator) { m.Name = fmt.Sprintf("renamed %d", w.n) }))
+		before := i.Id()
+		if w.n%2 == 0 {
+			hx.Must(i.Mutate(repo, func(m *identity.Mutator) { m.Name = fmt.Sprintf("renamed %d", w.n) }))
+		} else {
+			i.SetMetadata(fmt.Sprintf("key%d", w.n), "value") // on a committed identity: one more version
+		}
 		if err := i.Commit(repo); err != nil {
 			ev.Err = "commit: " + err.Error()
 		}
+		ok, _ := repo.RefExist("refs/identities/" + before.String())
+		ev.IdStable = ok && i.Id() == before && before == w.ids[s.I-1]
 		w.emit(ev, s.R)
+		w.noteSig(repo, i)
 	case "Push":
 		ev := &Event{Ev: "Push"}
 		_, err := identity.Push(repo, "origin")
@@ -182,12 +234,9 @@ func (w *world) do(s Step) {
 				o.err = res.Err.Error()
 			}
 			if id, ok := res.Entity.(*identity.Identity); ok && id != nil {
-				// every version got a distinct name: the name tells which version the returned identity ends with
-				var k int
-				if _, err := fmt.Sscanf(id.Name(), "user %d", &k); err != nil {
-					_, _ = fmt.Sscanf(id.Name(), "renamed %d", &k)
-				}
-				o.returned = []int{k}
+				// every version changed the name or added a metadata key of its own: name and accumulated metadata tell which version
+				// the returned identity ends with (0: none this session made)
+				o.returned = []int{w.sigNo[sigOf(id)]}
 			}
 			results = append(results, o)
 		}
